@@ -211,6 +211,7 @@ def sx(name, **kw):
 
 
 _cost_table = None
+QUICK_TARGETS = {"C04": 480000, "C15": 450000, "C16": 420000, "C10": 350000}   # measured throughput differs per harness (steps per execution)
 QUICK_TARGET = 360000     # executions one quick tier can complete in ~150 s on 16 idle cores (measured ~2.7k executions/s)
 
 
@@ -239,7 +240,8 @@ def tasks_for(pid, tier):
         def total():
             return sum(max(0, _cost(t)) for t in ts)
         guard = 0
-        while total() > QUICK_TARGET and guard < 200:
+        target = QUICK_TARGETS.get(pid, QUICK_TARGET)
+        while total() > target and guard < 200:
             guard += 1
             cand = [t for t in ts if t.get("engine") == "dsched" and t["k"] > 0 and _cost(t) > 0]
             if not cand:
